@@ -54,6 +54,19 @@ class MirCheck:
         self.engines = []
         self.timeout = 120 if tier == "quick" else 900
         self.errors = []
+        self._src_for = {}
+        self._meta_engine = None
+
+    def register_src(self, driver, params, src):
+        import json as _json
+
+        self._src_for[(driver, _json.dumps(params, sort_keys=True))] = src
+
+    def meta_engine(self):
+        """engine used only for type metadata while rebuilding goals in concrete mode (not counted as coverage)"""
+        if self._meta_engine is None:
+            self._meta_engine = _engine.Engine(self.crate, os.environ.get("VERIF_REPO", "/repo"))
+        return self._meta_engine
 
     def engine(self, unwind=8):
         e = _engine.Engine(self.crate, os.environ.get("VERIF_REPO", "/repo"), unwind=unwind)
@@ -203,3 +216,245 @@ def f64(name):
 
 def fpv(x):
     return z3.FPVal(x, z3.Float64())
+
+
+# ------------------------------------------------------------------------------------------- named inputs: symbolic or concrete
+
+F64S = z3.Float64()
+
+
+class Src:
+    """Source of named check inputs.  model=None: fresh symbolic constants.  model=dict: the solver's values (concrete
+    replay: the same check-construction code is evaluated on the natively observed post-state)."""
+
+    def __init__(self, model=None):
+        self.model = model
+        self.hyps = []
+        self.decl = {}
+
+    @property
+    def concrete(self):
+        return self.model is not None
+
+    def bv(self, name, w):
+        self.decl[name] = ("bv", w)
+        if self.concrete:
+            v = self.model.get(name, 0)
+            if isinstance(v, bool):
+                v = int(v)
+            if not isinstance(v, int):
+                v = 0
+            return z3.BitVecVal(v & ((1 << w) - 1), w)
+        return z3.BitVec(name, w)
+
+    def bool(self, name):
+        self.decl[name] = ("bool", 1)
+        if self.concrete:
+            return z3.BoolVal(bool(self.model.get(name, False)))
+        return z3.Bool(name)
+
+    def f64(self, name):
+        self.decl[name] = ("f64", 64)
+        if self.concrete:
+            v = self.model.get(name, {"f64_bits": 0})
+            bits = v["f64_bits"] if isinstance(v, dict) and "f64_bits" in v else 0
+            return z3.simplify(z3.fpBVToFP(z3.BitVecVal(bits, 64), F64S))
+        return z3.FP(name, F64S)
+
+    def bytes(self, name, n):
+        from values import VArr
+
+        return VArr([self.bv(f"{name}.{i}", 8) for i in range(n)])
+
+    def instant(self, name, ty="Instant"):
+        s = self.bv(name + ".s", 64)
+        ns = self.bv(name + ".ns", 32)
+        self.hyps.append(z3.ULT(ns, bv(10**9, 32)))
+        self.hyps.append(z3.ULT(s, bv(1 << 40, 64)))
+        return VStruct([s, ns], ty)
+
+    def pin(self, name, term):
+        """named scalar equal to `term` (so that the model reports e.g. array reads)"""
+        if z3.is_bool(term):
+            c = self.bool(name)
+        elif z3.is_bv(term):
+            c = self.bv(name, term.size())
+        elif z3.is_fp(term):
+            c = self.f64(name)
+        else:
+            raise SymError("pin of non-scalar")
+        if not self.concrete:
+            self.hyps.append(c == term)
+        return c
+
+    def map(self, name, key_width, template, probes, cap=None):
+        """arbitrary map probed at the given keys: symbolic = fresh arrays + pinned reads; concrete = stores of the pinned values"""
+        from values import flatten
+
+        ks = z3.BitVecSort(key_width)
+        leaves_t = flatten(template)
+        if not self.concrete:
+            m = mk_map(None, name, key_width, template, cap)
+            arrs = flatten(m.val)
+            for label, k in probes.items():
+                self.pin(f"{name}@{label}.present", z3.Select(m.present, k))
+                for i, a in enumerate(arrs):
+                    self.pin(f"{name}@{label}.v{i}", z3.Select(a, k))
+            self.bv(f"{name}.count", 64)
+            return m
+        present = z3.K(ks, z3.BoolVal(False))
+        arrs = [z3.K(ks, _zero_like(l)) for l in leaves_t]
+        for label, k in probes.items():
+            present = z3.Store(present, k, self.pin(f"{name}@{label}.present", z3.BoolVal(False)))
+            for i, l in enumerate(leaves_t):
+                arrs[i] = z3.Store(arrs[i], k, self.pin(f"{name}@{label}.v{i}", l))
+        it = iter(arrs)
+        val = vmap(template, lambda l: next(it))
+        return VMap(ks, present, val, self.bv(f"{name}.count", 64), bv(cap, 64) if cap is not None else None)
+
+    def case(self):
+        """flat JSON-able dict of every declared input under the model (f64 as raw bits)"""
+        out = {}
+        for name, (kind, w) in self.decl.items():
+            v = self.model.get(name) if self.model else None
+            if kind == "bool":
+                out[name] = bool(v) if v is not None else False
+            elif kind == "f64":
+                out[name] = v["f64_bits"] if isinstance(v, dict) and "f64_bits" in v else 0
+            else:
+                out[name] = int(v) if isinstance(v, (int, bool)) else 0
+        return out
+
+
+def _zero_like(l):
+    if z3.is_bool(l):
+        return z3.BoolVal(False)
+    if z3.is_fp(l):
+        return z3.FPVal(0.0, l.sort())
+    return z3.BitVecVal(0, l.size())
+
+
+def concrete_truth(f):
+    """evaluate a closed formula; returns True/False/None"""
+    g = z3.simplify(f)
+    if z3.is_true(g):
+        return True
+    if z3.is_false(g):
+        return False
+    s = z3.Solver()
+    s.set("timeout", 20000)
+    s.add(z3.Not(g))
+    r = s.check()
+    if r == z3.unsat:
+        return True
+    s2 = z3.Solver()
+    s2.set("timeout", 20000)
+    s2.add(g)
+    if s2.check() == z3.unsat:
+        return False
+    return None
+
+
+def obs_map(obs, name, key_width, template, probes):
+    """concrete VMap from a native observation: obs[f"{name}@{label}"] = null | [leaf values...]"""
+    from values import flatten
+
+    ks = z3.BitVecSort(key_width)
+    leaves_t = flatten(template)
+    present = z3.K(ks, z3.BoolVal(False))
+    arrs = [z3.K(ks, _zero_like(l)) for l in leaves_t]
+    for label, k in probes.items():
+        o = obs.get(f"{name}@{label}")
+        present = z3.Store(present, k, z3.BoolVal(o is not None))
+        if o is not None:
+            if not isinstance(o, list):
+                o = [o]
+            for i, l in enumerate(leaves_t):
+                arrs[i] = z3.Store(arrs[i], k, _const_like(l, o[i]))
+    it = iter(arrs)
+    val = vmap(template, lambda l: next(it))
+    return VMap(ks, present, val, bv(0, 64), None)
+
+
+def _const_like(l, v):
+    if z3.is_bool(l):
+        return z3.BoolVal(bool(v))
+    if z3.is_fp(l):
+        return z3.simplify(z3.fpBVToFP(z3.BitVecVal(int(v), 64), l.sort()))
+    return z3.BitVecVal(int(v) & ((1 << l.size()) - 1), l.size())
+
+
+def make_replayer(ck, modname, driver, build, params=None):
+    """on_sat handler: run the native driver on the model's inputs, rebuild the goals on the observed post-state."""
+    import json as _json
+
+    import kanicheck
+    from common import write_replay
+
+    def on_sat(q, model):
+        src = Src(model)
+        # first pass only to learn the declared inputs (the symbolic build already did, but keep it self-contained)
+        sym = ck._src_for.get((driver, _json.dumps(params, sort_keys=True)))
+        if sym is not None:
+            src.decl = dict(sym.decl)
+        case = src.case()
+        case["__params"] = params or {}
+        case["__driver"] = driver
+        payload = {"property": ck.pid, "engine": "mirsym", "module": modname, "driver": driver, "params": params, "obligation": q.name, "case": case,
+                   "model": {k: v for k, v in model.items() if k in src.decl}}
+        obs, transcript = kanicheck.native_driver(modname, driver, case)
+        payload["observed"] = obs
+        payload["transcript_tail"] = transcript[-1500:]
+        rp = write_replay(ck.pid, q.name.replace("/", "_")[:100], payload)
+        if obs is None:
+            return None, "driver produced no observation: " + transcript[-400:], rp
+        if q.kind == "side":
+            if obs.get("panicked"):
+                return True, "native run panicked: " + obs.get("panic_text", "")[-300:], rp
+            return False, "native run did not panic", rp
+        if obs.get("panicked"):
+            return True, "native run panicked: " + obs.get("panic_text", "")[-300:], rp
+        goals = build(Src(model), obs)
+        gname = q.meta.get("goal")
+        if gname not in goals:
+            return None, f"goal {gname} not rebuilt in concrete mode", rp
+        t = concrete_truth(goals[gname])
+        if t is False:
+            return True, f"goal {gname} is false on the natively observed post-state", rp
+        if t is True:
+            return False, f"goal {gname} holds on the natively observed post-state", rp
+        return None, "could not evaluate the goal concretely", rp
+
+    return on_sat
+
+
+def replay_file(path, rebuild):
+    """./check Cxx --replay <file> for engine-M counterexamples: re-run the native driver and re-evaluate the goal"""
+    import json as _json
+
+    import kanicheck
+
+    d = _json.load(open(path))
+    if d.get("engine") == "kani":
+        return kanicheck.replay_file(path)
+    ck = MirCheck(d["property"], "quick")
+    obs, transcript = kanicheck.native_driver(d["module"], d["driver"], d["case"])
+    print("observed:", _json.dumps(obs)[:2000])
+    if obs is None:
+        print(transcript[-1500:])
+        return 2
+    if obs.get("panicked"):
+        print(f"VIOLATION property={d['property']} replay={path}")
+        return 1
+    build = rebuild(ck, d["driver"], d.get("params") or {})
+    goals = build(Src(d["model"]), obs)
+    gname = d["obligation"].split("/", 1)[1] if d["obligation"].split("/", 1)[1] in goals else None
+    for g in goals:
+        if d["obligation"].endswith(g):
+            gname = g
+    t = concrete_truth(goals[gname]) if gname else None
+    print("goal", gname, "->", t)
+    if t is False:
+        print(f"VIOLATION property={d['property']} replay={path}")
+        return 1
+    return 0 if t is True else 2
